@@ -208,7 +208,68 @@ func clVisitorBoundary(c *Ctx) {
 			found++
 			c.Check(fld == fIter, f, in, cnt.in(f, "shard end test uses the key-only comparator"),
 				"a shard starts by a key-only Seek to its pivot but ends by comparing (key, bornSn): when the pivot is another version of a key than the visible one, that key is delivered by two neighbouring shards (or by none)")
-			// the loop really stops there: the true edge of (cmp >= 0) leaves the scan loop
+			// decision table of the end test: the item is delivered iff it sorts
+			// strictly below the end pivot
+			var cv int64
+			it := &interp{p: p}
+			it.load = func(chain []*types.Var, root ssa.Value, env map[ssa.Value]ival) (ival, bool) {
+				return ival{kind: 'p', h: root}, true
+			}
+			it.call = func(ci *ssa.Call, args []ival, env map[ssa.Value]ival) (ival, bool) {
+				if ci == call {
+					return ival{kind: 'i', i: cv}, true
+				}
+				if p.CallsAny(ci, itGetNode, nodeItem) {
+					return ival{kind: 'p', h: ci}, true
+				}
+				return ival{}, false
+			}
+			it.stop = func(x ssa.Instruction) (string, bool) {
+				if cl, ok := x.(*ssa.Call); ok && cl != call && cl.Call.StaticCallee() == nil && !cl.Call.IsInvoke() {
+					if n, ok := cl.Call.Value.Type().(*types.Named); ok && n.Obj().Name() == "VisitorCallback" {
+						return "deliver", true
+					}
+				}
+				switch u := x.(type) {
+				case *ssa.UnOp:
+					if u.Op == token.ARROW {
+						return "stop", true
+					}
+				case *ssa.RunDefers, *ssa.Return:
+					return "stop", true
+				}
+				return "", false
+			}
+			it.ignoreStore = func(*ssa.Store) bool { return true }
+			var bad []string
+			msg := ""
+			for _, cv = range []int64{-5, -1, 0, 1, 9} {
+				var r runResult
+				it.steps = 0
+				msg = tryInterp(func() { r = it.Run(f, call.Block(), 0, map[ssa.Value]ival{}) })
+				if msg != "" {
+					break
+				}
+				if (r.outcome == "deliver") != (cv < 0) {
+					bad = append(bad, fmt.Sprintf("cmp(current item, end pivot)=%d: outcome %s", cv, r.outcome))
+				}
+			}
+			if msg != "" {
+				c.Undecided(f, in, cnt.in(f, "shard end decision"), "outside the comparison-only fragment: "+msg)
+			} else {
+				det := ""
+				if len(bad) > 0 {
+					det = bad[0] + "; an item equal to the end pivot's key belongs to the NEXT shard (which seeks it): delivering it here duplicates it, stopping early loses items"
+				}
+				c.Check(len(bad) == 0, f, in, cnt.in(f, "shard delivers exactly the items strictly below its end pivot"), det)
+			}
+			// the end pivot is pivotItems[shard+1]
+			if ld, ok := strip(call.Call.Args[1]).(*ssa.UnOp); ok {
+				if ia, ok := ld.X.(*ssa.IndexAddr); ok {
+					b, isAdd := strip(ia.Index).(*ssa.BinOp)
+					c.Check(isAdd && b.Op == token.ADD && (isConstInt(1)(b.Y) || isConstInt(1)(b.X)), f, in, cnt.in(f, "end pivot is pivotItems[shard+1]"), "the shard is bounded by the wrong pivot")
+				}
+			}
 		}
 		// shard start: key-only seek with the start pivot's bytes, or SeekFirst for the first shard
 		for _, sk := range p.CallSites(f, itSeek) {
